@@ -321,8 +321,17 @@ class IMAPServer:
                 environment="devel" if self.debug else "production",
             )
 
+        # NOTE: The stream limit is how long a single line of a command may
+        #       be. The default of 64k is far below MAX_INPUT_SIZE and a longer
+        #       line (say a long list of uid's) would make the reader fail and
+        #       the client be disconnected without any response.
+        #
         self.asyncio_server = await asyncio.start_server(
-            self.new_client, self.address, self.port, ssl=self.ssl_context
+            self.new_client,
+            self.address,
+            self.port,
+            ssl=self.ssl_context,
+            limit=MAX_INPUT_SIZE,
         )
         # addrs = ", ".join(
         #     str(sock.getsockname()) for sock in self.asyncio_server.sockets
@@ -521,7 +530,21 @@ class IMAPClient:
                 # Read until b'\r\n'. Trim off the '\r\n'. If the message is
                 # not of 0 length then append it to our incremental buffer.
                 #
-                msg = await self.reader.readuntil(self.LINE_TERMINATOR)
+                try:
+                    msg = await self.reader.readuntil(self.LINE_TERMINATOR)
+                except asyncio.LimitOverrunError as exc:
+                    # A single line longer than the stream's limit. Refuse
+                    # the command (once) and swallow the line piece by piece.
+                    #
+                    if not discard:
+                        await self.push(
+                            b"* BAD command exceeds maximum allowed size\r\n"
+                        )
+                        self.ibuffer = []
+                        self.ibuffer_size = 0
+                        discard = True
+                    await self.reader.readexactly(exc.consumed)
+                    continue
                 msg = msg.rstrip()
                 if msg and not discard:
                     self.ibuffer.append(msg)
